@@ -22,6 +22,7 @@ from ..core import HarnessError, fmt_exc, innermost_pkg_frame, run_given, short
 from ..gen import fam14 as FAM
 from ..gen.fam14deep.sub import mod as _DEEP  # noqa: F401  (imported so that its class is a known subclass, like the rest of the family)
 from ..gen import types as G
+from . import _rt
 
 ID = "C14"
 LEVEL = "exploration"
@@ -48,6 +49,7 @@ MODEL = {
     "Req": {"r": ("int", True), "a": ("int", False), "b": ("str", False)},
     "Loose": {"a": ("int", False)},
     "GrandChild": {"e": ("listint", False), "c": ("float", False), "a": ("int", False), "b": ("str", False)},
+    "ViaHidden": {"v": ("int", False), "h": ("int", False), "a": ("int", False), "b": ("str", False)},  # reached through an underscore-named class
     "Widget": {"w": ("int", False), "a": ("int", False), "b": ("str", False)},  # lives three packages down; a *different* object is called Widget higher up
 }
 CP = {"Widget": "vf.gen.fam14deep.sub.mod.Widget"}
@@ -64,7 +66,10 @@ POSITIONS = ["m", "m", "m", "holder.inner", "holder.many", "holder.opt", "holder
 @G._memo
 def case_strategy():
     def build(draw):
-        kind = draw(st.sampled_from(["valid", "valid", "valid", "valid", "wrongclass", "unknown_arg", "bad_type", "missing_req", "dict_kwargs", "factory", "class_change"]))
+        kind = draw(st.sampled_from(["valid", "valid", "valid", "valid", "wrongclass", "unknown_arg", "bad_type", "missing_req", "dict_kwargs", "factory", "class_change", "default_short"]))
+        if kind == "default_short":
+            return {"kind": kind, "pos": "md", "a": draw(st.integers(0, 9)), "notation": "short",
+                    "channel": draw(st.sampled_from(["parse_string", "parse_object", "parse_object(defaults=False)", "argv", "argv-json", "environment", "default_config_file"]))}
         pos = draw(st.sampled_from(POSITIONS))
         cls = draw(st.sampled_from(sorted(MODEL)))
         if kind == "wrongclass":
@@ -236,6 +241,69 @@ def null_string_artifact(case):
     return any(v == "null" and params.get(k, ("", 0))[0] == "str" for k, v in case["init_args"].items())
 
 
+def run_default_short(ctx, case):
+    """init_args without class_path for an argument whose *default* names the class: the spec denotes that class, through every
+    channel - also those that start from an empty configuration (parse_string, parse_object with defaults=False, the environment,
+    a default config file)"""
+    import os
+    import warnings
+
+    from jsonargparse import ArgumentError, ArgumentParser
+
+    warnings.simplefilter("ignore")
+    a, ch = case["a"], case["channel"]
+    short_spec = {"init_args": {"a": a}}
+    ctx.cls("default-short:" + ch)
+    ctx.mark_nontrivial()
+    old_env = dict(os.environ)
+    try:
+        with _rt.scratch_dir() as d:
+            kw = {}
+            if ch == "default_config_file":
+                f = os.path.join(d, "defaults.yaml")
+                with open(f, "w") as fh:
+                    fh.write(json.dumps({"md": short_spec}))
+                kw["default_config_files"] = [f]
+            # an argument whose default is a class spec (next to an ordinary one, so that the configuration is not empty otherwise)
+            p = ArgumentParser(exit_on_error=False, **kw)
+            p.add_argument("--cfg", action="config")
+            p.add_argument("--n", type=int, default=1)
+            p.add_argument("--md", type=FAM.Base, default={"class_path": M + "Child", "init_args": {"c": 1.5}})
+            try:
+                if ch == "parse_string":
+                    cfg = p.parse_string(json.dumps({"md": short_spec}))
+                elif ch == "parse_object":
+                    cfg = p.parse_object({"md": short_spec})
+                elif ch == "parse_object(defaults=False)":
+                    cfg = p.parse_object({"md": short_spec}, defaults=False)
+                elif ch == "argv":
+                    cfg = p.parse_args([f"--md.init_args.a={a}"])
+                elif ch == "argv-json":
+                    cfg = p.parse_args(["--md=" + json.dumps(short_spec)])
+                elif ch == "environment":
+                    q = ArgumentParser(exit_on_error=False, default_env=True, env_prefix="VF14")
+                    q.add_argument("--md", type=FAM.Base, default={"class_path": M + "Child", "init_args": {"c": 1.5}})
+                    os.environ["VF14_MD"] = json.dumps(short_spec)
+                    p = q
+                    cfg = q.parse_args([])
+                else:
+                    cfg = p.parse_args([])
+            except ArgumentError as ex:
+                ctx.finding(f"C14/default-short/rejected/{ch}", {"error": short(str(ex), 300)})
+                return
+            del FAM.LOG[:]
+            try:
+                obj = p.instantiate_classes(cfg).md
+            except Exception as ex:  # noqa
+                ctx.finding(f"C14/default-short/instantiation-raises:{type(ex).__name__}/{ch}", {"error": fmt_exc(ex), "spec": short(cfg.md, 200)})
+                return
+            if type(obj).__name__ != "Child" or obj.a != a:
+                ctx.finding(f"C14/default-short/instance-of-wrong-class-or-value/{ch}", {"got": type(obj).__name__, "a": getattr(obj, "a", None), "expected": ["Child", a]})
+    finally:
+        os.environ.clear()
+        os.environ.update(old_env)
+
+
 def run_case(ctx, case):
     import warnings
 
@@ -246,6 +314,8 @@ def run_case(ctx, case):
     kind, pos = case["kind"], case["pos"]
     ctx.cls("kind:" + kind)
     ctx.cls("pos:" + pos)
+    if kind == "default_short":
+        return run_default_short(ctx, case)
     if kind == "class_change":
         return run_class_change(ctx, case, p)
     if kind == "two_sources":
